@@ -126,7 +126,11 @@ def run_case(case):
             sizes["CHUNK_SIZE_ROWS_PREDICTION"] = int(rng.choice([nmin - 1, nmin // 2 + 1, nmin // 3, 7, max(2, nmin // 5)]))
         if case["index"] % 3 == 2:
             sizes["CHUNK_SIZE_READ_ALL_DATA"] = int(rng.choice([nmin - 1, nmin // 2 + 1, 11]))
-        with core.chunk_sizes(**sizes):
+        import contextlib
+        from vf.instruments import scheduler
+
+        sched = scheduler.perturb(int(rng.integers(1 << 30))) if case["workers"] > 1 else contextlib.nullcontext()
+        with core.chunk_sizes(**sizes), sched as trace:
             out = pipeline.run_brew(paths, learner=case["learner"], folds=case["folds"], seed=int(rng.integers(1 << 30)),
                                     test_fdr=0.1, train_fdr=0.1, max_workers=case["workers"], subset_max_train=cap,
                                     max_iter=int(rng.integers(1, 4)), delay=0.004 if case["workers"] > 1 else 0.0)
@@ -154,6 +158,8 @@ def run_case(case):
         res.count("scored_rows", facts["scored_rows"])
         threads = {e["thread"] for e in log}
         res.count("distinct_threads_seen", len(threads))
+        if trace is not None:
+            res.count("task_kinds_finished_out_of_order", trace.out_of_order())
         if out["status"] == "ok":
             check_scores(res, out, tabs, log, extra)
         multi = any((t["truth"]["spec"].value_counts() > 1).any() for t in tabs)
